@@ -173,7 +173,7 @@ func c03(x *mon.Ctx) {
 	for wi := 0; wi < nw; wi++ {
 		r := x.Rand(fmt.Sprint("world", wi))
 		base := richHonest(r)
-		base.Resign() // one collateral signer for both documents: the mutants below re-sign with its key
+		base.Resign()                           // one collateral signer for both documents: the mutants below re-sign with its key
 		if wi%2 == 0 && base.P.TeeTcb[1] == 0 { // make sure module identities matter in half of the worlds
 			base.P.TeeTcb[1] = byte(1 + r.Intn(9))
 			base = rebuildFor(base, r)
